@@ -585,7 +585,7 @@ Lemma prepared_sides along sl st en :
     Sides s (rp_depth along) (rp_depth along - sl_open_start sl + sl_open_end sl) st en d.
 Proof.
   intros Hv Hsh Hos Ho H. destruct (prepare_slice_TextAt s _ _ _ _ H) as [Hts Hte].
-  unfold prepare_slice in H.
+  apply (prepare_slice_ok s) in H. unfold prepare_slice0 in H.
   set (os := sl_open_start sl) in *. set (oe := sl_open_end sl) in *. set (content := sl_content sl) in *.
   set (extra := rp_depth along - os) in *.
   destruct (rp_node along extra) as [parent|] eqn:Epar; [|discriminate]. cbn [bind] in H.
